@@ -881,6 +881,7 @@ func Run(r *ev.Run) {
 	r.RequireAtLeast("config_spelling_settings_loaded", int64(nVariants*10))
 	// rig control: the canonical word written through the same quoting path loads and is judged (otherwise "refused" proves nothing)
 	r.RequireAtLeast("config_spelling_control_canonical_word_accepted", 100)
+	historyLayer(r)
 	if ProxyLayer != nil {
 		ProxyLayer(r)
 	}
